@@ -269,11 +269,24 @@ def tab_intp_method(k, it, pt):
     yv = number("y", pt)
     H.assume(cm.is_valid_physical_value(yv))
     try:
-        cm.convert_physical_to_internal(yv)
+        xi = cm.convert_physical_to_internal(yv)
     except OdxError:
         H.check("C07:valid-physical-values-of-a-monotone-table-convert-without-error", False)
         return
     H.check("C07:valid-physical-values-of-a-monotone-table-convert-without-error", True)
+    # ... to the inverse interpolation (nearest integer for integer internal types), which makes internal -> physical
+    # -> internal the identity for strictly monotone tables with a real-valued physical type
+    inv = None
+    for i in reversed(range(k - 1)):
+        lo = H.ite(ys[i] < ys[i + 1], ys[i], ys[i + 1])
+        hi = H.ite(ys[i] < ys[i + 1], ys[i + 1], ys[i])
+        e_i = xs[i] + (yv - ys[i]) * (xs[i + 1] - xs[i]) / (ys[i + 1] - ys[i])
+        inv = e_i if inv is None else H.ite(H.And(lo <= yv, yv <= hi), e_i, inv)
+    if it in S.INT_TYPES:
+        H.check("C07,C03:integer-internal-value-is-the-nearest-integer-of-the-inverse-interpolation",
+                S.is_nearest_integer(xi, inv))
+    else:
+        H.check("C07,C03:internal-value-is-the-inverse-interpolation", xi == inv)
 
 
 # ------------------------------------------------------------------------------------------------- RAT-FUNC
@@ -431,3 +444,30 @@ def texttable_method(k, ranges):
             return
         H.check("C07,C03:a-text-converts-to-a-value-of-its-own-scale", H.And(los[i] <= xi, xi <= his[i]))
     H.check("C07:unknown-text-is-not-valid", H.Not(cm.is_valid_physical_value("no such text")))
+
+
+# ------------------------------------------------------------------------------------------------- DataType.from_string
+# every limit, table point and constant of the compu methods above enters through DataType.from_string: the parsed value
+# is the number the text denotes (a FLOAT32 limit "0.1" must admit the physical value 0.1 - values are Python floats,
+# no narrowing to single precision takes place anywhere else in the library)
+NUMBER_TEXTS = {
+    "A_FLOAT32": ["0.1", "1e-3", "3.14159", "-2.5", "100", "16777217", "0.30000000000000004"],
+    "A_FLOAT64": ["0.1", "1e-3", "3.14159", "-2.5", "100", "16777217"],
+    "A_INT32": ["-7", "0", "12", "0x10", "3.0"],
+    "A_UINT32": ["0", "12", "0x10", "4294967295", "3.0"],
+}
+
+
+@harness(props=["C07"], strength="E", family=lambda t, s: [{"dt": dt} for dt in NUMBER_TEXTS],
+         functions=[DataType.from_string, DataType.make_from], covers=["done"], crosscheck=False)
+def number_texts_denote_their_value(dt):
+    """DataType.from_string / make_from of a number text is the number the text denotes"""
+    for text in NUMBER_TEXTS[dt]:
+        want = float(text) if dt in ("A_FLOAT32", "A_FLOAT64") else (int(text, 0) if "." not in text else int(float(text)))
+        H.check("C07:parsed-number-is-the-number-the-text-denotes",
+                H.And(DataType[dt].from_string(text) == want, DataType[dt].make_from(text) == want))
+    lim = Limit(value_raw="0.1", value_type=DataType[dt], interval_type=IntervalType.CLOSED) \
+        if dt in ("A_FLOAT32", "A_FLOAT64") else None
+    if lim is not None:
+        H.check("C07:closed-limit-admits-its-own-value", H.And(lim.complies_to_lower(0.1), lim.complies_to_upper(0.1)))
+    H.cover("done")
